@@ -173,7 +173,19 @@ def check(ctx):
     for ty in ("context::PartyInfo", "context::SuppPubInfo"):
         check_array_encoder(ctx, ty, KDF_STRUCTS[ty])
     c18.kdf_encoder(ctx, "R-1")
-    ctx.floor("R-1", "encoders analysed", len(MESSAGE_TYPES) + 2, 10)
+    # the two remaining encoders: a key set is the array of its keys; a protected header asked for its *map* form (its
+    # AsCborValue impl, used by to_vec) is the header map, whatever bytes it retains
+    e = prog.fn(enc_key("key::CoseKeySet"))
+    rt = Prov(e).return_term()
+    ctx.ob("R-1", "encoder:key::CoseKeySet", is_call(rt, codec.TO_ARRAY) and rt[2] == (("field", ("param", 0), "0"),),
+           "CoseKeySet encodes as to_cbor_array(self.0)", where=e.span, detail={"returns": show(rt)[:120]})
+    e = prog.fn(enc_key("header::ProtectedHeader"))
+    rt = Prov(e).return_term()
+    ctx.ob("R-1", "encoder:header::ProtectedHeader(map form)",
+           is_call(rt, "<header::Header as common::AsCborValue>::to_cbor_value") and rt[2] == (("field", ("param", 0), "header"),),
+           "ProtectedHeader::to_cbor_value (the bare map form) is Header::to_cbor_value(self.header) on every path", where=e.span,
+           detail={"returns": show(rt)[:160]})
+    ctx.floor("R-1", "encoders analysed", len(MESSAGE_TYPES) + 4, 12)
 
     # ---- R-3 emptiness and the protected bstr ---------------------------------------------------------------
     check_is_empty(ctx, "R-3")
